@@ -4,6 +4,10 @@
 //
 //	key spec x envelope format x signer kind x target x user metadata x expiry duration x signing agent
 //
+// (the product runs over user metadata of 0, 1 and 3 pairs with plain keys; the classes of keys and values - key
+// namespaces such as org.opencontainers.*, neighbours of the reserved prefix, key and value spellings, sizes,
+// cardinality - are the metadata-shape family of metadata.go, judged by the same clauses)
+//
 // every element signed through the REAL signing API (notation.SignBlob, Signer.Sign,
 // notation.SignOCI) with a GenericSigner (from key material and from PEM files) or a PluginSigner
 // over an in-process scripted signature-generator / envelope-generator plugin, the bytes fed into the REAL verification
@@ -198,11 +202,8 @@ type metaT struct {
 	M    map[string]string
 }
 
-var metas = []metaT{
-	{"none", nil},
-	{"one", map[string]string{"buildId": "101"}},
-	{"three", map[string]string{"buildId": "101", "emptyValue": "", "unicode": "héllo-世界-✓ <&>"}},
-}
+// metas (metadata.go) = baseMetas (cardinalities 0, 1, 3 with plain keys; the whole product) + shapeMetas (one map per
+// class of keys and values; the metadata-shape family)
 
 // the longest duration the API can express (whole seconds): signing time + duration lies after the year 2262,
 // beyond what fits into int64 nanoseconds since 1970
@@ -822,7 +823,7 @@ func judgePayload(res *result, c *caseT, raw []byte, want wantT, blob bool) {
 		}
 	}
 	if !sameMap(ann, want.Annotations) {
-		res.bad("payload/annotations-differ", "payload annotations %s, expected (original annotations + user metadata) %s", vt.MapString(ann), vt.MapString(want.Annotations))
+		res.bad("payload/annotations-differ", "payload annotations %s, expected (original annotations + user metadata) %s", mapStr(ann), mapStr(want.Annotations))
 	}
 }
 
@@ -860,7 +861,7 @@ func judgeReadBack(res *result, um, userMeta, ownAnnotations map[string]string, 
 		}
 	}
 	if !ok {
-		res.bad("metadata/read-back-differs", "%sUserMetadata() = %s, signed user metadata %s (annotations of the target itself: %s)", how, vt.MapString(um), vt.MapString(userMeta), vt.MapString(ownAnnotations))
+		res.bad("metadata/read-back-differs", "%sUserMetadata() = %s, signed user metadata %s (annotations of the target itself: %s)", how, mapStr(um), mapStr(userMeta), mapStr(ownAnnotations))
 	}
 }
 
@@ -1022,7 +1023,7 @@ func judgeAlternate(res *result, c *caseT, o *notation.VerificationOutcome, want
 	if err != nil {
 		res.bad("metadata/read-back-error", "UserMetadata() (%s): %v", vo.label, err)
 	} else {
-		judgeReadBack(res, um, userMeta, ownAnnotations, "verification requiring "+vt.MapString(vo.required)+": ")
+		judgeReadBack(res, um, userMeta, ownAnnotations, "verification requiring "+mapStr(vo.required)+": ")
 	}
 }
 
@@ -1204,11 +1205,11 @@ func (w *world) roundTrip(r *hx.Run, c *caseT, in *instances) *result {
 			}
 			if !sameMediaType(d2.MediaType, want.MediaType) || string(d2.Digest) != want.Digest || d2.Size != want.Size {
 				res.bad("blob/returned-descriptor-differs", "VerifyBlob with ContentMediaType=%q UserMetadata=%s returned {mediaType:%q digest:%q size:%d}, the verified blob is {mediaType:%q digest:%q size:%d}",
-					mt, vt.MapString(vo.required), d2.MediaType, d2.Digest, d2.Size, want.MediaType, want.Digest, want.Size)
+					mt, mapStr(vo.required), d2.MediaType, d2.Digest, d2.Size, want.MediaType, want.Digest, want.Size)
 			}
 			if !sameMediaType(d2.MediaType, kept.MediaType) || d2.Digest != kept.Digest || d2.Size != kept.Size || !sameMap(d2.Annotations, kept.Annotations) {
 				res.bad("blob/returned-descriptor-depends-on-verify-options", "same blob, same signature: VerifyBlob returned %+v with ContentMediaType=%q UserMetadata=%s, but %+v with ContentMediaType=%q and no required metadata",
-					d2, mt, vt.MapString(vo.required), kept, t.MT)
+					d2, mt, mapStr(vo.required), kept, t.MT)
 			}
 			judgeAlternate(res, c, o2, want, meta, nil, true, vo)
 		}
@@ -1237,7 +1238,7 @@ func (w *world) roundTrip(r *hx.Run, c *caseT, in *instances) *result {
 					res.note("other-blob-presented/" + ob.Label + ":accepted")
 					if string(d3.Digest) != obDigest || d3.Size != int64(len(ob.Content)) {
 						res.bad("blob/returned-descriptor-is-not-of-the-verified-blob", "VerifyBlob (ContentMediaType=%q UserMetadata=%s) succeeded for a blob that is not the signed one (%s: %d bytes, %s) and returned {digest:%q size:%d}, the descriptor of the signed blob",
-							mt, vt.MapString(vo.required), ob.Label, len(ob.Content), obDigest, d3.Digest, d3.Size)
+							mt, mapStr(vo.required), ob.Label, len(ob.Content), obDigest, d3.Digest, d3.Size)
 					}
 				}
 			}
@@ -1518,7 +1519,7 @@ func report(r *hx.Run, c *caseT, res *result) string {
 
 func main() {
 	r := hx.New("C07")
-	r.Rule = "phase 1 (sequential, fresh process): for every key spec x format x signer kind x failing call {SignBlob, VerifyBlob} x failure point {0, half, all-but-one bytes} x delivery of the follow-up, a blob call whose reader fails is followed by an honest sign->verify round trip of the same signer and verifier instances; phase 2 (parallel): every element of key spec x leaf validity {long-lived, short-lived: ends 3 h from now, before signing time + 24 h} x expiry duration {none, 1 h, 24 h, the longest expressible: 9223372036 s, ends after 2262} x format x signer kind x (32 OCI descriptors: annotations x every subset of urls/data/platform/artifactType | 4 blob sizes x 5 content media type spellings (2 common, 3 legal uncommon ones: case, spacing, quoting, parameter order) x 4 ways the readers deliver the bytes (the uncommon spellings meet the 1 MiB blob delivered whole only)) x user metadata x expiry duration x signing agent is signed once by the real signing API and the bytes verified by the real verification API once with the sign-side options and once for every other accepted setting of the verify-side options (blob content media type {as signed, not given} x required user metadata {none, one signed pair, all signed pairs}); one notation.SignOCI -> in-memory repository -> notation.Verify trip per (key spec, format); instance reuse: every ordered pair of four configurations done by the same signer and verifier instances; repository histories: for every key spec x signer kind, the artifact is signed through notation.SignOCI 1..3 times by a trusted or an untrusted signer (same leaf key and names, other CA keys) in either envelope format, at least once trusted, in every order, the scripted repository lists the signatures in push order all at once or one per page, then notation.Verify; non-trivial = distinct histories whose judged round trip succeeded (signature produced, verification succeeded), the only cases in which the reporting oracle is evaluated"
+	r.Rule = "phase 1 (sequential, fresh process): for every key spec x format x signer kind x failing call {SignBlob, VerifyBlob} x failure point {0, half, all-but-one bytes} x delivery of the follow-up, a blob call whose reader fails is followed by an honest sign->verify round trip of the same signer and verifier instances; phase 2 (parallel): every element of key spec x leaf validity {long-lived, short-lived: ends 3 h from now, before signing time + 24 h} x expiry duration {none, 1 h, 24 h, the longest expressible: 9223372036 s, ends after 2262} x format x signer kind x (32 OCI descriptors: annotations x every subset of urls/data/platform/artifactType | 4 blob sizes x 5 content media type spellings (2 common, 3 legal uncommon ones: case, spacing, quoting, parameter order) x 4 ways the readers deliver the bytes (the uncommon spellings meet the 1 MiB blob delivered whole only)) x user metadata {none, one pair, three pairs; plain keys} x expiry duration x signing agent is signed once by the real signing API and the bytes verified by the real verification API once with the sign-side options and once for every other accepted setting of the verify-side options (blob content media type {as signed, not given} x required user metadata {none, one signed pair, all signed pairs}); metadata shapes (parallel, before the product, never cut by its deadline): every user-metadata map of the hand-written shape alphabet (keys in the OCI image-spec namespace org.opencontainers.* next to a plain key / nothing but such keys / the namespace roots and their neighbours / other well-known annotation namespaces / legal keys next to the reserved prefix io.cncf.notary / the names of the descriptor's and payload's own members / key spellings: empty, blanks, separators, case twins, non-ASCII, JSON-escaped and control characters / value spellings: multi-line, JSON text, blanks, HTML, U+2028/2029, NUL, equal values, values that look like keys / a 1000-byte key and a 64 KiB value / 40 pairs / control: a key with the reserved prefix, which the signing API refuses - recorded, not judged) x format x signer kind x target {OCI descriptor without annotations, OCI descriptor with annotations of its own and all extra fields, 1 KiB blob} is signed and verified like an element of the product (same clauses, all verify-side option settings), and every shape x format goes through notation.SignOCI -> in-memory repository -> notation.Verify; quick rotates key spec, expiry duration and signing agent over this family, thorough multiplies by the key spec and adds two targets; one notation.SignOCI -> in-memory repository -> notation.Verify trip per (key spec, format); instance reuse: every ordered pair of four configurations done by the same signer and verifier instances; repository histories: for every key spec x signer kind, the artifact is signed through notation.SignOCI 1..3 times by a trusted or an untrusted signer (same leaf key and names, other CA keys) in either envelope format, at least once trusted, in every order, the scripted repository lists the signatures in push order all at once or one per page, then notation.Verify; non-trivial = distinct histories whose judged round trip succeeded (signature produced, verification succeeded), the only cases in which the reporting oracle is evaluated"
 	r.Assumptions = []string{
 		"RSASSA-PSS / ECDSA / SHA-2 of the Go standard library are correct (used by the scripted plugins, lib/refsig and the oracle's digest recomputation)",
 		"the scripted plugins are honest: they sign exactly the bytes handed to them with the hash named in the request and honour expiryDurationInSeconds",
@@ -1530,6 +1531,7 @@ func main() {
 		"a blob that is not the signed one (last byte changed / one byte longer) is presented under every verify-side option setting: a rejection is recorded, not judged (not this statement); a success must return the descriptor of the blob that was read",
 		"media types are compared as RFC 2045 defines their equality (case of type/subtype/parameter names, spacing, quoting and parameter order do not matter), not as strings",
 		"the descriptor returned by VerifyBlob is judged on media type (the signed one, also when the verifier was not told a media type), digest and size; its annotations are recorded, not judged, but the returned descriptor may not differ between verifications of the same blob and signature under different verify-side options",
+		"legal user metadata = what the signing API accepts (it refuses keys with the reserved prefix io.cncf.notary and, for OCI targets, keys the target's own annotations already use); keys and values are valid UTF-8 strings (invalid UTF-8 cannot be carried by the JSON payload and is not enumerated); the metadata-shape alphabet is hand-written, no key collides with an annotation of the OCI targets",
 		"the result of a call whose reader fails is recorded, not judged; only the honest round trip after it is judged (keys after-failed-read/...)",
 	}
 	w := buildWorld(r)
@@ -1613,7 +1615,7 @@ func main() {
 			for fi, f := range forge.Formats {
 				for ki, kind := range signerKinds {
 					for ti, td := range tds {
-						for mi, m := range metas {
+						for mi, m := range baseMetas {
 							for ei, e := range expirySeconds {
 								for ai, a := range agents {
 									full++
@@ -1727,11 +1729,15 @@ func main() {
 	r.Extra["repository_history_sequences"] = len(seqs)
 	r.Extra["fault_histories"] = len(faults)
 	r.Extra["alphabet"] = map[string]int{"key_specs": len(pki.AllSpecs), "leaf_validity_windows": len(certWindows), "verify_option_settings_per_signature_max": 6, "formats": 2, "signer_kinds": len(signerKinds), "oci_targets": 2 << len(extraFields), "blob_targets": len(blobSizes) * len(blobMTs), "content_media_type_spellings": len(blobMTs), "blob_deliveries": len(deliveries),
-		"user_metadata": len(metas), "expiry_durations": len(expirySeconds), "signing_agents": len(agents), "fault_calls": 2, "fault_points": 3, "reuse_configurations": len(reuse)}
+		"user_metadata": len(metas), "user_metadata_in_the_product": len(baseMetas), "user_metadata_shapes": len(shapeMetas), "expiry_durations": len(expirySeconds), "signing_agents": len(agents), "fault_calls": 2, "fault_points": 3, "reuse_configurations": len(reuse)}
 
 	// results are reported in enumeration order, so the case written out for a violation key is always
 	// the first one of the enumeration
-	all := append(faults, cases...)
+	// the metadata-shape family runs before the product (it is small and is never cut by the deadline of the product)
+	shapes := shapeCases(r.Thorough())
+	r.Extra["metadata_shape_cases"] = len(shapes)
+	r.Extra["metadata_shapes"] = len(shapeMetas)
+	all := append(append(append([]caseT(nil), faults...), shapes...), cases...)
 	results := make([]*result, len(all))
 	panics := make([]string, len(all))
 	one := func(i int) {
@@ -1750,7 +1756,7 @@ func main() {
 	if r.Thorough() {
 		faultBudget = hx.Budget(2 * time.Minute)
 	}
-	skippedAll := make([]bool, len(faults)+len(cases))
+	skippedAll := make([]bool, len(all))
 	fstride := 131
 	for len(faults) > 0 && len(faults)%fstride == 0 {
 		fstride += 2
@@ -1776,6 +1782,10 @@ func main() {
 	} else {
 		r.SetDeadline(38 * time.Second)
 	}
+	ev0 := r.Evaluations()
+	r.Parallel(len(shapes), func(i int) { one(len(faults) + i) }, nil)
+	r.Extra["metadata_shape_evaluations"] = r.Evaluations() - ev0
+	tShapes := time.Since(t1)
 	stride := 7919
 	for len(cases)%stride == 0 {
 		stride += 2
@@ -1783,7 +1793,7 @@ func main() {
 	skipped := skippedAll
 	var nSkipped atomic.Int64
 	r.Parallel(len(cases), func(i int) {
-		j := len(faults) + int((int64(i)*int64(stride))%int64(len(cases)))
+		j := len(faults) + len(shapes) + int((int64(i)*int64(stride))%int64(len(cases)))
 		if r.Expired() {
 			skipped[j] = true
 			nSkipped.Add(1)
@@ -1794,7 +1804,7 @@ func main() {
 	if n := nSkipped.Load(); n > 0 {
 		r.Capped(fmt.Sprintf("internal deadline: %d of %d parallel histories (strided order over the enumeration) completed", int64(len(cases))-n, len(cases)))
 	}
-	r.Extra["phase_wall_seconds"] = map[string]float64{"fault_histories_sequential": t1.Sub(t0).Seconds(), "product_and_reuse_parallel": time.Since(t1).Seconds()}
+	r.Extra["phase_wall_seconds"] = map[string]float64{"fault_histories_sequential": t1.Sub(t0).Seconds(), "metadata_shapes_parallel": tShapes.Seconds(), "product_and_reuse_parallel": (time.Since(t1) - tShapes).Seconds()}
 	var verified, total int64
 	type comboT struct{ done, verified, alarmed int }
 	combos := map[string]*comboT{}
